@@ -60,8 +60,8 @@ func BuildData(d DataSpec) any {
 		Items: items,
 		User:  User{Name: "user-" + tag, Email: tag + "@example.test", Profile: Profile{City: "city-" + tag, Zip: 1000 + d.Variant}, Admin: d.Variant%2 == 1},
 		HTML:  "<b>bold-" + tag + "</b>", Cls: "cls-" + tag,
-		M:     map[string]any{"k1": "v1-" + tag, "k2": "v2-" + tag, "k3": "v3-" + tag},
-		Num:   4.5, Empty: []string{}, Depth: d.Depth, Href: "/p/" + tag + "?a=1&b=2", Sty: "color:green;margin:" + fmt.Sprint(d.Variant) + "px",
+		M:   map[string]any{"k1": "v1-" + tag, "k2": "v2-" + tag, "k3": "v3-" + tag},
+		Num: 4.5, Empty: []string{}, Depth: d.Depth, Href: "/p/" + tag + "?a=1&b=2", Sty: "color:green;margin:" + fmt.Sprint(d.Variant) + "px",
 		hidden: "hidden-" + tag,
 	}
 	switch d.Shape {
